@@ -2,10 +2,11 @@
    toric_translation and mod3 of Generated/LatticeArith.v), closed by vm_compute with the bound in the statement.
      sizes: all (rows, cols) with 2 <= rows, cols <= 8 (validity, shapes, index bijection),
             all (rows, cols) with 2 <= rows, cols <= 7 (paths: ALL ordered same-lattice pairs, and each pair
-            again with both indices shifted by multiples of the period). *)
+            again with both indices shifted by multiples of the period),
+            all (rows, cols) with 2 <= rows, cols <= 6 (GF(2) ranks), <= 5 except 5x5 (true minimum distance). *)
 From Coq Require Import ZArith List Bool Lia.
-From QV Require Import Core.Bits Core.Pauli Core.Symp Core.Code Generated.LatticeArith
-  Lattice.Planar Lattice.PlanarBounded Lattice.Toric.
+From QV Require Import Core.Bits Core.Pauli Core.Symp Core.Code Core.Span Core.Rank Core.Dist Core.DistCSS
+  Generated.LatticeArith Lattice.Planar Lattice.PlanarBounded Lattice.Toric.
 Import ListNotations.
 Open Scope Z_scope.
 
@@ -58,6 +59,45 @@ Definition tdependent_ok (r c : Z) : bool :=
   && (length st =? 2 * h)%nat.
 Theorem toric_dependent_rows_upto8 : all_sizes 8 tdependent_ok = true.
 Proof. vm_compute. reflexivity. Qed.
+
+(* ---------------- C07: GF(2) ranks: n - k for the stabilizers (2 of the n - k + 2 rows are dependent),
+   n + k together with the logicals ---------------- *)
+Definition trank_ok (r c : Z) : bool :=
+  let cd := toric_code r c in
+  let '(n, k, d) := toric_n_k_d r c in
+  rank_check (2 * Z.to_nat n) (stabs cd) (Z.to_nat (n - k)) &&
+  rank_check (2 * Z.to_nat n) (stabs cd ++ lxs cd ++ lzs cd) (Z.to_nat (n + k)).
+Theorem toric_rank_upto6 : all_sizes 6 trank_ok = true.
+Proof. vm_compute. reflexivity. Qed.
+Theorem toric_rank_upto6_spec : forall r c, 2 <= r <= 6 -> 2 <= c <= 6 ->
+  let cd := toric_code r c in
+  let '(n, k, d) := toric_n_k_d r c in
+  rank_is (2 * Z.to_nat n) (stabs cd) (Z.to_nat (n - k)) /\
+  rank_is (2 * Z.to_nat n) (stabs cd ++ lxs cd ++ lzs cd) (Z.to_nat (n + k)).
+Proof.
+  intros r c Hr Hc. pose proof (all_sizes_spec _ _ toric_rank_upto6 r c Hr Hc) as H. unfold trank_ok in H.
+  cbv zeta. destruct (toric_n_k_d r c) as [[n k] d]. apply andb_true_iff in H. destruct H as [H1 H2].
+  split; now apply rank_check_sound.
+Qed.
+
+(* ---------------- C08: true minimum distance (Core/DistCSS.v) ---------------- *)
+Definition tdist_ok (r c : Z) : bool :=
+  let cd := toric_code r c in
+  let '(n, k, d) := toric_n_k_d r c in
+  let i := if r <=? c then 0%nat else 1%nat in
+  css_distance_check (Z.to_nat n) (stabs cd) (Z.to_nat d) (nth i (lxs cd) []) (nth i (lzs cd) []).
+Theorem toric_distance_upto5 : forallb (fun s => tdist_ok (fst s) (snd s)) dist_sizes = true.
+Proof. vm_compute. reflexivity. Qed.
+Theorem toric_distance_upto5_spec : forall r c, 2 <= r <= 5 -> 2 <= c <= 5 -> (r, c) <> (5, 5) ->
+  let '(n, k, d) := toric_n_k_d r c in
+  is_distance (Z.to_nat n) (stabs (toric_code r c)) (Z.to_nat d).
+Proof.
+  intros r c Hr Hc Hne. pose proof toric_distance_upto5 as H. rewrite forallb_forall in H.
+  specialize (H (r, c)). cbn [fst snd] in H. unfold tdist_ok in H. destruct (toric_n_k_d r c) as [[n k] d].
+  eapply css_distance_check_sound. apply H. unfold dist_sizes. apply filter_In. split; [now apply sizes_upto_In|].
+  destruct (zeqb2 (r, c) (5, 5)) eqn:E; [|reflexivity]. exfalso. apply Hne. unfold zeqb2 in E. cbn [fst snd] in E.
+  apply andb_true_iff in E. destruct E as [E1 E2]. apply Z.eqb_eq in E1, E2. now subst.
+Qed.
 
 (* ---------------- C07: index -> qubit is a bijection from the in-range indices onto [0, n) ---------------- *)
 Definition tflatten_bij_ok (r c : Z) : bool :=
